@@ -80,7 +80,7 @@ def _quiet_formatting():
     HM._format_float = lambda v: ""
 
 
-def fit_case(k, n_times, validation, opt_as_class, crit_name):
+def fit_case(k, n_times, validation, opt_as_class, crit_name, stale_grad=False):
     def fn(c):
         _quiet_formatting()
         c.env["track_grad"] = True
@@ -91,6 +91,10 @@ def fit_case(k, n_times, validation, opt_as_class, crit_name):
         deriv = env["derivative"]
         deriv.ul().cost = api.real(c, "cost", pos=True, hi=1)
         hedger, lin = make(c, crit_name)
+        if stale_grad:
+            # the parameters already hold a gradient from an earlier backward() (gradients are not accumulated: fit must start clean)
+            pre = SimStub(c, deriv, N, T, prefix="pre")
+            hedger.compute_loss(deriv, n_paths=N).backward()
         sim = SimStub(c, deriv, N, T)
         init = (api.real(c, "s_init", pos=True),)
         SymSGD.default_lr = lr
@@ -106,7 +110,9 @@ def fit_case(k, n_times, validation, opt_as_class, crit_name):
         c.check("one fresh training batch per epoch (+ n_times validation batches)", len(sim.args) == k * per_epoch)
         c.check("every batch has the requested size and initial state", all(a[0] == N and a[1] is init for a in sim.args))
         # modes: T-1 forwards per batch (stepwise branch)
-        log = lin.log if k else []
+        log = (lin.log if k else [])
+        if stale_grad:
+            log = log[T - 1:]  # drop the forwards of the preliminary backward pass
         per_batch = T - 1
         ok_train, ok_val = True, True
         for e in range(k):
@@ -216,6 +222,8 @@ def cases():
     cs.append(Case("fit/k=2/es/validation/n_times=2/class", fit_case(2, 2, True, True, "es"), encodes=enc, families=fam, timeout=120, max_paths=16,
                    bounds="k=2, n_times=2, optimiser passed as a class"))
     cs.append(Case("fit/k=2/es/no-validation/class", fit_case(2, 1, False, True, "es"), encodes=enc, families=fam, timeout=120, max_paths=16, bounds="k=2, validation off"))
+    cs.append(Case("fit/k=1/es/validation/stale-gradient", fit_case(1, 1, True, False, "es", stale_grad=True), encodes=enc, families=fam, timeout=120, max_paths=16,
+                   bounds="k=1, parameters hold a gradient from an earlier backward() when fit starts"))
     cs.append(Case("fit/k=1/entropic/validation/instance", fit_case(1, 1, True, False, "entropic"), encodes=enc, families=fam, timeout=120, max_paths=16, bounds="k=1 entropic"))
     cs.append(Case("fit/k=3/es/validation/n_times=2/instance", fit_case(3, 2, True, False, "es"), tier="thorough", encodes=enc, families=fam, timeout=600, max_paths=16, bounds="k=3"))
     cs.append(Case("fit/k=2/entropic/validation/class", fit_case(2, 1, True, True, "entropic"), tier="thorough", encodes=enc, families=fam, timeout=600, max_paths=16, bounds="k=2 entropic"))
